@@ -133,6 +133,7 @@ class C08(Check):
             idx = [i for i, l in enumerate(f[1]) if l[0] in ("Endif", "If")]
             if idx:
                 del f[1][self.rng.choice(idx)]
+                f[1][:] = normalise(f[1])     # adjacent code lines are one node
         return [kind, files, cfg, self.rng.randrange(1 << 30)]
 
     def generate(self):
